@@ -18,6 +18,8 @@ def run(ctx):
     runlib.lean_part(ctx, "RootSim.Props.C05LP", THEOREMS)
     agg = runlib.run_matrix(ctx, "par re-execution (rollback index, restored checkpoint, coast-forward entries, state digest after every rollback)",
                             36, 600, oracle_keys=("s_rb_mismatch",), threads=(1, 2, 3, 4), ckpts=(1, 2, 3, 7, 0))
+    import random
+    runlib.lib_matrix(ctx, random.Random(ctx.seed * 17 + 3))
     if agg:
         ctx.coverage["distinct_nontrivial"] = agg.tot.get("s_rb_checked", 0)
         ctx.coverage["rule"] = ("seeded GenModel instances x thread counts x checkpoint intervals x GVT periods x schedules; "
